@@ -210,6 +210,12 @@ def identity_laws(run: core.Run) -> None:
             "int01": one({"flag": [1, 0]}),
             "none": one({"flag": [None, None]}),
             "empty-str": one({"flag": ["", ""]}),
+            # non-finite numbers (YAML .inf / .nan) are values like any other: same id in inspect and trace, and not the
+            # id of the plan that holds their usual TEXT
+            "inf": one({"gain": [float("inf"), float("-inf")]}),
+            "nan": one({"gain": [float("nan"), 1.0]}),
+            "nan-text": one({"gain": ["NaN", 1.0]}),
+            "inf-text": one({"gain": ["Infinity", "-Infinity"]}),
         })
         seen_ids: Dict[str, str] = {}
         for name, rs in plans.items():
